@@ -2,8 +2,10 @@
 //
 // S1 driver: every change event of a small, adversarial path universe is pushed
 // through the two real event-processing functions
-//   (i)  replication.Replicator.Replicate            (weed filer.replicate)
-//   (ii) command.genProcessFunction (verif export)    (weed filer.sync / filer.backup)
+//
+//	(i)  replication.Replicator.Replicate            (weed filer.replicate)
+//	(ii) command.genProcessFunction (verif export)    (weed filer.sync / filer.backup)
+//
 // into a recording sink (answering found / not found, incremental or not) and, as
 // histories, into the real localsink.LocalSink on a scratch directory. A reference
 // mapper (inside <=> strictly below the source directory; key = target + relative
@@ -111,11 +113,11 @@ type recSink struct {
 	calls       []call
 }
 
-func (s *recSink) GetName() string                                         { return s.name }
-func (s *recSink) Initialize(c util.Configuration, prefix string) error    { return nil }
-func (s *recSink) GetSinkToDirectory() string                              { return s.dir }
-func (s *recSink) SetSourceFiler(*source.FilerSource)                      {}
-func (s *recSink) IsIncremental() bool                                     { return s.incremental }
+func (s *recSink) GetName() string                                      { return s.name }
+func (s *recSink) Initialize(c util.Configuration, prefix string) error { return nil }
+func (s *recSink) GetSinkToDirectory() string                           { return s.dir }
+func (s *recSink) SetSourceFiler(*source.FilerSource)                   {}
+func (s *recSink) IsIncremental() bool                                  { return s.incremental }
 func (s *recSink) DeleteEntry(key string, isDir, delChunks bool, sigs []int32) error {
 	s.calls = append(s.calls, call{Op: "delete", Key: key, IsDir: isDir, DelChunks: delChunks})
 	return nil
@@ -1003,7 +1005,7 @@ func main() {
 		}
 	}
 
-	if r.Thorough() && os.Getenv("VERIF_WEED") != "" {
+	if (r.Thorough() || os.Getenv("VERIF_C36_S2") != "") && os.Getenv("VERIF_WEED") != "" {
 		s2Backup(r)
 	}
 
@@ -1040,6 +1042,9 @@ func s2Backup(r *lib.Run) {
 		return
 	}
 	filerURL := fmt.Sprintf("http://127.0.0.1:%d", c.Filer.Port)
+	if !c.WaitHTTP(filerURL+"/", "filer", 90) {
+		return
+	}
 	sinkDir := r.SubDir("backup-sink")
 	wd := r.SubDir("backup-cwd")
 	conf := fmt.Sprintf("[sink.local]\nenabled = true\ndirectory = %q\nis_incremental = false\n", sinkDir)
